@@ -177,6 +177,9 @@ func (k *kase) attempt(rpc, variant string, cid int, mayCommit bool, due types.C
 		k.c.Oracle("persisted-past-proof-height:"+rpc, "%s persisted revision %d although the chain tip %d has reached the contract's proof height %d", rpc,
 			persisted.Revision.RevisionNumber, tip, before.Revision.ProofHeight)
 	}
+	if after.Renewed {
+		k.c.Oracle("persisted-for-renewed-contract:"+rpc, "%s persisted revision %d of a contract the host has renewed", rpc, persisted.Revision.RevisionNumber)
+	}
 	if !before.Revisable {
 		k.c.Oracle("persisted-for-non-revisable-contract:"+rpc, "%s persisted revision %d of a contract that is not revisable (renewed=%v, proof height %d, tip %d)", rpc,
 			persisted.Revision.RevisionNumber, before.Renewed, before.Revision.ProofHeight, k.w.rig.CM.Tip().Height)
@@ -1222,6 +1225,149 @@ func renewLimit(idx int) func(w *worker) {
 	}
 }
 
+
+// pausedRevising: a two-round revising RPC is stopped after the host's first response; on a second
+// stream the renter runs a FULL renew or refresh of the same contract; then the first RPC gets its
+// signature.  The contract is locked by the first RPC, so the renewal has to be refused, and the
+// first RPC then commits as if nothing had happened; in no case may a revision be persisted for a
+// contract that has been renewed.
+func pausedRevising(idx int) func(w *worker) {
+	return func(w *worker) {
+		w.ensure(3)
+		cid := w.cid
+		rpc := []string{"replenish", "append", "free"}[idx%3]
+		kind := []string{"renew", "refresh-full", "refresh-partial"}[(idx/3)%3]
+		k := w.begin(fmt.Sprintf("paused-%s-%s", rpc, kind))
+		ctx := context.Background()
+		settings, err := rhp4.RPCSettings(ctx, w.rig.T)
+		if err != nil {
+			k.c.Oracle("harness-setup", "settings: %v", err)
+			k.done(false)
+			return
+		}
+		st := k.state(cid)
+		ps := w.s.GoodPrices()
+		prices, _ := w.s.Prices(ps)
+		between := func() {
+			fs := &rhpx.FundSigner{W: w.rig.W, PK: rhpx.Key(rhpx.RenterKeyID)}
+			var err error
+			switch kind {
+			case "renew":
+				_, err = rhp4.RPCRenewContract(ctx, w.rig.T, w.rig.CM, fs, w.rig.CM.TipState(), settings.Prices, settings.WalletAddress, st.Revision, proto4.RPCRenewContractParams{
+					ContractID: w.s.CID(cid), Allowance: types.Siacoins(100000), Collateral: types.Siacoins(200000), ProofHeight: st.Revision.ProofHeight + 2})
+			case "refresh-full":
+				_, err = rhp4.RPCRefreshContractFullRollover(ctx, w.rig.T, w.rig.CM, fs, w.rig.CM.TipState(), settings.Prices, settings.WalletAddress, st.Revision, proto4.RPCRefreshContractParams{
+					ContractID: w.s.CID(cid), Allowance: types.Siacoins(1000), Collateral: types.Siacoins(2000)})
+			default:
+				_, err = rhp4.RPCRefreshContractPartialRollover(ctx, w.rig.T, w.rig.CM, fs, w.rig.CM.TipState(), settings.Prices, settings.WalletAddress, st.Revision, proto4.RPCRefreshContractParams{
+					ContractID: w.s.CID(cid), Allowance: types.Siacoins(100000), Collateral: types.Siacoins(200000)})
+			}
+			w.rig.T.WaitIdle()
+			if err == nil {
+				k.c.Oracle("lock-not-exclusive:"+kind+"-during-"+rpc, "a %s of the contract succeeded while a %s RPC in flight holds it locked", kind, rpc)
+			}
+		}
+		n := len(w.cur)
+		switch rpc {
+		case "replenish":
+			bals, _ := w.rig.EC.AccountBalances([]proto4.Account{rhpx.Acct(acctA), rhpx.Acct(acctB)})
+			target := bals[0].Add(cur(777))
+			if bals[1].Cmp(target) >= 0 {
+				target = bals[1].Add(cur(777))
+			}
+			due := target.Sub(bals[0]).Add(target.Sub(bals[1]))
+			k.attempt("replenish", "paused-"+kind, cid, true, due, func() rhpx.Result {
+				return w.s.Replenish(rhpx.ReplArgs{Cid: cid, Accounts: []int{acctA, acctB}, Target: target, Chal: rhpx.Honest, Second: rhpx.Honest, CurIDs: w.cur, Between: between})
+			})
+		case "append":
+			add := []int{w.nextID, w.nextID%w.maxID + 1}
+			k.attempt("append", "paused-"+kind, cid, true, appendDue(prices, prices.TipHeight, st.Revision, 2), func() rhpx.Result {
+				return w.s.Append(rhpx.AppendArgs{Cid: cid, Prices: ps, Chal: rhpx.Honest, Sectors: add, Second: rhpx.Honest, Between: between})
+			})
+		case "free":
+			is := []uint64{uint64(n - 1), 0}
+			k.attempt("free", "paused-"+kind, cid, true, freeDue(prices, 2), func() rhpx.Result {
+				return w.s.Free(rhpx.FreeArgs{Cid: cid, Prices: ps, Chal: rhpx.Honest, Indices: is, Second: rhpx.Honest, Between: between})
+			})
+		}
+		w.sync(cid)
+		k.observe()
+		// the contract is still the live one
+		if st := k.state(cid); st.Renewed || !st.Revisable {
+			k.c.Oracle("renewed-behind-a-held-lock", "after the paused %s the contract is renewed=%v revisable=%v", rpc, st.Renewed, st.Revisable)
+		}
+		k.run("fund", variants()[0], false)
+		k.done(true, "kind:paused-revising", "paused:"+rpc, "inner:"+kind)
+	}
+}
+
+// zeroLimits: a host whose limits are zero.  A zero MaxCollateral admits no collateral at all (and
+// a zero MaxContractDuration no contract): formations, renewals and refreshes asking for more must
+// be refused and change nothing.
+func zeroLimits(idx int) func(w *worker) {
+	return func(w *worker) {
+		w.ensure(2)
+		old := w.cid
+		k := w.begin(fmt.Sprintf("zero-limits%d", idx), old)
+		ctx := context.Background()
+		saved := w.rig.SR.RHP4Settings()
+		defer w.rig.SR.Update(saved)
+		before := k.state(old)
+		fs := func() *rhpx.FundSigner { return &rhpx.FundSigner{W: w.rig.W, PK: rhpx.Key(rhpx.RenterKeyID)} }
+		judge := func(name string, err error, calls []rhpx.Call) {
+			if err == nil {
+				k.c.Oracle("out-of-range-request-accepted:"+name, "%s was accepted by a host whose limit is zero", name)
+			}
+			for _, c := range calls {
+				if (c.Kind == "renew" || c.Kind == "add") && c.Err == nil {
+					k.c.Oracle("out-of-range-contract-recorded:"+name, "%s: the contractor recorded a contract the host's settings do not admit", name)
+				}
+			}
+			after := k.state(old)
+			if after.Revision != before.Revision || after.Renewed || !after.Revisable {
+				k.c.Oracle("out-of-range-request-changed-contract:"+name, "%s: the existing contract is revisable=%v renewed=%v", name, after.Revisable, after.Renewed)
+			}
+			k.observe()
+		}
+		for _, limit := range []string{"max-collateral-zero", "max-duration-zero"} {
+			z := saved
+			if limit == "max-collateral-zero" {
+				z.MaxCollateral = types.ZeroCurrency
+			} else {
+				z.MaxContractDuration = 0
+			}
+			w.rig.SR.Update(z)
+			settings, err := rhp4.RPCSettings(ctx, w.rig.T)
+			if err != nil {
+				continue
+			}
+			w.rig.Rec.Take()
+			_, err = rhp4.RPCFormContract(ctx, w.rig.T, w.rig.CM, fs(), w.rig.CM.TipState(), settings.Prices, w.rig.HostKey.PublicKey(), settings.WalletAddress, proto4.RPCFormContractParams{
+				RenterPublicKey: rhpx.Key(rhpx.RenterKeyID).PublicKey(), RenterAddress: w.rig.W.Address(),
+				Allowance: types.Siacoins(100), Collateral: types.Siacoins(1), ProofHeight: w.rig.CM.Tip().Height + 100})
+			w.rig.T.WaitIdle()
+			judge("form:"+limit, err, w.rig.Rec.Take())
+			_, err = rhp4.RPCRenewContract(ctx, w.rig.T, w.rig.CM, fs(), w.rig.CM.TipState(), settings.Prices, settings.WalletAddress, before.Revision, proto4.RPCRenewContractParams{
+				ContractID: w.s.CID(old), Allowance: types.Siacoins(100000), Collateral: types.Siacoins(200000), ProofHeight: before.Revision.ProofHeight + 2})
+			w.rig.T.WaitIdle()
+			judge("renew:"+limit, err, w.rig.Rec.Take())
+			if limit == "max-collateral-zero" { // a refresh does not extend the contract: only the collateral limit applies
+				_, err = rhp4.RPCRefreshContractFullRollover(ctx, w.rig.T, w.rig.CM, fs(), w.rig.CM.TipState(), settings.Prices, settings.WalletAddress, before.Revision, proto4.RPCRefreshContractParams{
+					ContractID: w.s.CID(old), Allowance: types.Siacoins(1000), Collateral: types.Siacoins(2000)})
+				w.rig.T.WaitIdle()
+				judge("refresh-full:"+limit, err, w.rig.Rec.Take())
+				_, err = rhp4.RPCRefreshContractPartialRollover(ctx, w.rig.T, w.rig.CM, fs(), w.rig.CM.TipState(), settings.Prices, settings.WalletAddress, before.Revision, proto4.RPCRefreshContractParams{
+					ContractID: w.s.CID(old), Allowance: types.Siacoins(1000), Collateral: types.Siacoins(2000)})
+				w.rig.T.WaitIdle()
+				judge("refresh-partial:"+limit, err, w.rig.Rec.Take())
+			}
+		}
+		w.rig.SR.Update(saved)
+		k.run("fund", variants()[0], false)
+		k.done(true, "kind:zero-limits")
+	}
+}
+
 // expired: past the proof height nothing is revisable.
 func expired() func(w *worker) {
 	return func(w *worker) {
@@ -1379,6 +1525,10 @@ func Run(r *vh.Run) {
 	for i := 0; i < 8; i++ {
 		jobs = append(jobs, interleaved(i), interleavedCredit(i))
 	}
+	for i := 0; i < 9; i++ {
+		jobs = append(jobs, pausedRevising(i))
+	}
+	jobs = append(jobs, zeroLimits(0), zeroLimits(1))
 	nh := r.Pick(3000, 40000)
 	steps := r.Pick(25, 50)
 	for i := 0; i < nh; i++ {
